@@ -228,7 +228,13 @@ func (sc *Scheduler) Schedule(ctx context.Context, g *ExecutionGraph, done chan 
 				}
 				// finish the node
 				if node.State().Status == NodeStatusRunning {
-					node.setStatus(NodeStatusSuccess)
+					if executed {
+						node.setStatus(NodeStatusSuccess)
+					} else {
+						// The run was stopped after this step had been launched
+						// but before it was executed: it did not succeed.
+						node.setStatus(NodeStatusCancel)
+					}
 				}
 				if !executed && setupSucceed && prevLog != "" {
 					// The run was stopped before this retry was executed: what
